@@ -731,7 +731,11 @@ fn translate_block(
                     TranslateBranchDelay::DelaySlot(instruction.address, instruction_graph)
                 }
                 TranslateBranchDelay::DelaySlot(address, cfg) => {
-                    block_graphs.push((instruction.address, instruction_graph));
+                    // The delay-slot copy of an instruction gets its own key (+2, like
+                    // the +1 of the branch effect below): when the same word is also a
+                    // jump target it is lifted a second time as an ordinary instruction,
+                    // and the two copies must not share successors.
+                    block_graphs.push((instruction.address + 2, instruction_graph));
                     // this +1 is a hack to make parsing BlockTranslationResult
                     // blocks work correctly
                     block_graphs.push((address + 1, cfg));
@@ -745,7 +749,8 @@ fn translate_block(
                     )
                 }
                 TranslateBranchDelay::DelaySlotFallThrough(address, cfg) => {
-                    block_graphs.push((instruction.address, instruction_graph));
+                    // own key for the delay-slot copy, see above
+                    block_graphs.push((instruction.address + 2, instruction_graph));
                     // this +1 is a hack to make parsing BlockTranslationResult
                     // blocks work correctly
                     block_graphs.push((address + 1, cfg));
